@@ -47,6 +47,12 @@ def gen(rng):
         if np.linalg.cond(np.hstack([ref - ref.mean(axis=0), np.ones((n, 1))])) < 1e3:
             break
     L, t = rand_map(rng)
+    if rng.random() < 0.2:
+        # pixel positions under an integer-valued map (quarter turn, shear, scale, shift): exactly representable as unsigned integers
+        ref = np.rint(np.abs(ref))
+        L = np.array([[[0, 1], [-1, 0]], [[2, 1], [0, 3]], [[2, 0], [0, 3]], [[-1, 0], [0, -1]]][int(rng.integers(0, 4))], dtype=float)      # no eigenvalue 1
+        t = np.array([float(rng.integers(0, 30)), float(rng.integers(0, 30))])
+        t = t - np.minimum(0, (ref @ L + t).min(axis=0)) + 1.0
     centre = [None, np.zeros(2), rng.uniform(-30, 60, 2)][int(rng.integers(0, 3))]
     w = [None, np.full(n, float(rng.uniform(0.1, 5))), rng.uniform(0.1, 10, n), rng.integers(1, 200, n).astype(float)][int(rng.integers(0, 4))]
     return ref, L, t, centre, w
@@ -63,6 +69,23 @@ def stmt_failure(ref, L, t, centre, w, noise=None):
     if np.abs(back - peaks).max() > 1e-8 * sc:
         return 'round trip does not reproduce the target points (max error %.4g; centre %s, weights %s)' % (np.abs(back - peaks).max(), None if centre is None else centre.tolist(),
                                                                                                          None if w is None else 'given')
+    # results are the caller's: a later call (same number of points) must not change an earlier result
+    keep = back.copy()
+    other = core.call_guarded(grm.do_transformation, fit * 1.5 + 0.25, ref[::-1].copy(), center=centre)
+    if not np.array_equal(back, keep):
+        return 'the array returned by do_transformation changed when do_transformation was called again (results share a buffer)'
+    fit_keep = fit.copy()
+    grm.get_transformation(ref[::-1].copy(), peaks + 1.0, center=centre, weighs=w)
+    if not np.array_equal(fit, fit_keep):
+        return 'the matrix returned by get_transformation changed when get_transformation was called again'
+    if np.array_equal(ref, np.rint(ref)) and ref.min() >= 0 and np.array_equal(peaks, np.rint(peaks)) and peaks.min() >= 0 and peaks.max() < 65535:
+        # pixel positions stored as unsigned integers (the dtype of centre buffers): no intermediate may be computed in that dtype
+        try:
+            fit_u = grm.get_transformation(ref.astype(np.uint16), peaks.astype(np.uint16), center=centre, weighs=w)
+        except Exception as e:  # noqa
+            return 'raised %s for uint16 point sets: %s' % (type(e).__name__, e)
+        if np.abs(fit_u - fit).max() > 1e-8 * sc:
+            return 'uint16 point sets give a different transformation than the same values as float64 (max deviation %.4g)' % np.abs(fit_u - fit).max()
     if np.abs(fit[:, 2] - np.array([0, 0, 1])).max() > 1e-9:
         return 'last column of the fitted matrix is not (0,0,1): %s' % fit[:, 2].tolist()
     if np.array_equal(ref, np.rint(ref)):
